@@ -83,7 +83,10 @@ def run(ctx):
         "lestrrat-go/jwx Headers.Set typing / jwk.Key.Raw assignability / jws.Sign writing alg, ECIES and JWE decrypt only with the matching key",
         "model scope: crypto/storage/spi {interface.go KidPattern, wrapper.go}, crypto/storage/fs/fs.go path construction + O_EXCL create, "
         "crypto/storage/vault/vault.go privateKeyPath, crypto/crypto.go New/Link/Delete/Migrate/Resolve/Exists/List, crypto/jwx.go getPrivateKey + "
-        "SignJWS/SignJWT header handling, crypto/decryptor.go, crypto/dpop.go, crypto/memory.go; dpop.jwkIsPrivateKey / didjwk.rawPrivateKeyOf as decision tables",
+        "SignJWS/SignJWT header handling, crypto/decryptor.go, crypto/dpop.go, crypto/memory.go; dpop.jwkIsPrivateKey / didjwk.rawPrivateKeyOf as decision tables; "
+        "deepening round: crypto/api/v1/api.go (validate() x4, SignJwt/SignJws/DecryptJwe handlers, ResolveStatusCode) interpreted from regenerated check lists, crypto/dpop/dpop.go Sign (jwk header derivation over "
+        "repeated signing of one token), fs.ListPrivateKeys name parsing, crypto/storage/external/client.go name -> request target (net/url.PathEscape hand model; the generated client's second escape and "
+        "encoding/json decoding of request bodies are contracts tied by correspondence)",
         "api_surface_by_kid is a statement about facts produced by a go/ast (name based, import-table resolved) inventory: the extractor is trusted; "
         "values passed through interface{} into third-party code are not followed",
     ]
@@ -638,6 +641,11 @@ def run(ctx):
                        "(b) random New/Link/Delete/Migrate/Sign(JWS,JWT,DPoP)/Resolve/Exists/List/Decrypt/DecryptJWE sequences on the real Crypto engine "
                        "(SQLite + fs backend behind the wrapper) vs the Lean state machine; every token verified against ALL public keys the store returned. "
                        "(c) SignJWS/SignJWT header maps (11 JWK kinds, typed/untyped headers) via package function, engine and in-memory signer; DPoP / did:jwk JWK classification. "
+                       "(d) REST wrapper crypto/api/v1: generated sign_jwt / sign_jws / decrypt_jwe / encrypt_jwe(validate) bodies (absent/null/empty/present members, JSON header objects with duplicate names, "
+                       "private/public JWK objects, forged kid headers, sibling spellings of bound kids, kids linked to names outside the namespace) through echo + strict handler + error handler on a real engine "
+                       "vs NutsModel/C03/Api.lean composed with the key store model (status, problem detail, signing key, signed header). "
+                       "(e) the same dpop.DPoP signed for 2-3 kids with/without a pre-set (private) jwk header; fs save under faults (name taken, key dir gone) with TMPDIR watched; ListPrivateKeys over generated file trees. "
+                       "(f) external secret-store backend behind the wrapper against a recording loopback server: request targets vs pathEscape∘pathEscape model. "
                        "distinct_nontrivial = distinct names / (dir,name) / (prefix,name) / key-store ops by position / header maps")
     ctx.cov["input_distribution"] = dist
     if "fs" in outs and outs["fs"][1]:
